@@ -148,6 +148,41 @@ def check_normalize_and_csv(position, fe):
         shutil.rmtree(tmp, ignore_errors=True)
 
 
+def check_legacy_csv():
+    """legacy merchant_categories.csv: a pattern that is not a valid regular expression (the loader does not compile patterns) makes just that
+    rule inapplicable"""
+    bad_patterns = ['*TST COFFEE', '(UNCLOSED', 'A[', 'X{2,1}', '(?P<n>a)(?P<n>b)', '\\']
+    tmp = tempfile.mkdtemp(prefix='c08csv-')
+    try:
+        good = 'GOOD,Good Merchant,CatGood,SubGood,g\nOTHER,Other Merchant,CatOther,SubOther,\n'
+        for bp in bad_patterns:
+            for pos in ('first', 'middle', 'last'):
+                body = {'first': '%s,Bad,CatBad,SubBad,bad\n' % bp + good, 'last': good + '%s,Bad,CatBad,SubBad,bad\n' % bp,
+                        'middle': good.split('\n')[0] + '\n%s,Bad,CatBad,SubBad,bad\n' % bp + good.split('\n')[1] + '\n'}[pos]
+                path = os.path.join(tmp, 'merchant_categories.csv')
+                open(path, 'w').write('Pattern,Merchant,Category,Subcategory,Tags\n' + body)
+                mu.clear_engine_cache()
+                try:
+                    rules = mu.get_all_rules(path)
+                except Exception:
+                    continue          # rejected at load: allowed
+                w = {'position': 'csv_pattern', 'expr': bp, 'via': 'legacy_csv', 'where': pos}
+                for ti, t in enumerate(TXNS):
+                    O.case(('csv', bp, pos, ti))
+                    try:
+                        m, c, s, info = mu.normalize_merchant(t['description'], rules, amount=t['amount'], txn_date=t['date'], field=t['field'], data_source=t['source'])
+                    except BaseException as e:
+                        O.fail('C08.normalize_merchant_aborts.legacy_csv_pattern', dict(w, txn=ti), 'classification completes; the rule with the bad pattern is skipped',
+                               '%s: %s' % (type(e).__name__, e), 'get_all_rules(csv)+normalize_merchant')
+                        break
+                    want = 'CatGood' if 'GOOD' in t['description'] else ('CatOther' if 'OTHER' in t['description'] else 'Unknown')
+                    if c != want:
+                        O.fail('C08.other_rules_affected.legacy_csv_pattern', dict(w, txn=ti), want, c)
+        mu.clear_engine_cache()
+    finally:
+        shutil.rmtree(tmp, ignore_errors=True)
+
+
 def check_views(fe):
     w = {'position': 'view', 'expr': fe}
     text = ('gv = %s\n\n[Failing View]\nfilter: %s\n\n[Var View]\nv = %s\nfilter: v\n\n[Uses Global]\nfilter: gv\n\n[Good View]\nfilter: total > 5\n' % (fe, fe, fe))
@@ -177,6 +212,8 @@ def main():
         w = O.witness
         if w.get('position') == 'view':
             check_views(w['expr'])
+        elif w.get('via') == 'legacy_csv':
+            check_legacy_csv()
         elif w.get('via') == 'file':
             check_normalize_and_csv(w['position'], w['expr'])
         else:
@@ -189,6 +226,7 @@ def main():
         for position in ('match', 'let', 'field', 'tag', 'transform', 'transform_then_good', 'variable'):
             check_normalize_and_csv(position, fe)
         check_views(fe)
+    check_legacy_csv()
     # view filters / variables that misuse the aggregate primitives (arguments of the wrong type, unknown periods)
     for fe in VIEW_FAILING:
         check_views(fe)
